@@ -90,10 +90,22 @@ def bounded(ctx):
     for (name, e, m, v) in be.generic_classes(core, enz[::6] if ctx.tier == "quick" else enz):
         classes += [("generic-module[%s]" % name, m), ("generic-vector[%s]" % name, v)]
     # (1) every class x seeded instances x all rotations: same verdict / overhangs / target / placeholder
+    refused = []
     for (label, cls) in classes:
         for s in be.class_records(cls, rng, count=1 if ctx.tier == "quick" else 3, run_range=(2, 8)):
             ref = be.observe_entity(cls(CircularRecord(Seq(s), id="r")))
             if ref["valid"] is not True:
+                # an instance of the class's own structure that the class refuses as generated (a further site slipped into
+                # the random filling): whatever the verdict, it is asked again at the rotations that move the origin through
+                # the structure -- a class that accepts it only at some rotation is what this property excludes
+                refused.append(label)
+                for r in (1, 2, len(s) // 3, len(s) // 2, len(s) - 2, len(s) - 1):
+                    evals += 1
+                    obs = be.observe_entity(cls(CircularRecord(Seq(s[-r:] + s[:-r]), id="r")))
+                    if obs.get("valid") is True:
+                        viol.append(dict(name="typing_refused_%s" % label, what="%s refuses an instance of its structure as generated but accepts it rotated by %d (record %r)" % (
+                            label, r, s[:60]), case=dict(cls=label, record=s, k=r), expected=ref, observed=obs))
+                        break
                 continue
             n = len(s)
             for r in range(1, n):
@@ -106,6 +118,9 @@ def bounded(ctx):
                     viol.append(dict(name="typing_%s" % label, what="%s: record >> %d reports %s = %r, the unrotated record %r (record %r)" % (
                         label, r, diff[0], obs.get(diff[0]), ref[diff[0]], s[:60]), case=dict(cls=label, record=s, k=r), expected=ref, observed=obs))
                     break
+    if len(refused) > max(3, len(classes) // 5):
+        raise RuntimeError("the stand-in cannot exercise this tree: %d of %d classes refuse the instances generated from their own structure (%s ...)" % (
+            len(refused), len(classes), ", ".join(refused[:4])))
     # (1b) records the class REFUSES although its structure occurs exactly once (a further recognition site inside the
     # matched stretch: signature-typed classes, whose fixed overhang letters keep the occurrence unique): the refusal,
     # too, is the same at every rotation
